@@ -49,7 +49,7 @@ def split_cases(lines):
     return out
 
 def norm(l):
-    return re.sub(r" at=\S+", "", l.rstrip("\n"))
+    return re.sub(r" (at|vref)=\S+", "", l.rstrip("\n"))
 
 def parse_case_file(lines):
     """thread programs: {tid: [op tokens]}"""
@@ -65,7 +65,7 @@ def monitor_sched(case_lines, out_lines, S, F):
     """oracles on one implementation trace; returns list of (prop, sig, msg)"""
     V = []
     if out_lines and out_lines[0].startswith("died"):
-        for p_ in ("C01", "C02", "C03", "C04", "C07", "C08"):
+        for p_ in ("C01", "C02", "C03", "C04", "C07", "C08", "C15"):
             V.append((p_, "impl-crash", f"the implementation killed the process ({out_lines[0].strip()}: SIGSEGV / abort inside the crate) while this schedule was running"))
         return V
     progs = parse_case_file(case_lines)
@@ -91,6 +91,7 @@ def monitor_sched(case_lines, out_lines, S, F):
     rel_ext, rel_acc = {}, {}
     last_ld, writes, aba_inserts = {}, {}, []   # (tid, loc) -> index of the thread's last load; loc -> [(index, tid)]
     aba_unlinks = []
+    last_cursor = {}   # thread -> the value its latest load of the cursor returned
     rewound_ = any(x and x[0] in ("rewind", "clear") for ops_ in progs.values() for x in ops_) or any(x and x[0] in ("rewind", "clear") for x in pre_ops)
     di0 = None
     try:
@@ -108,6 +109,8 @@ def monitor_sched(case_lines, out_lines, S, F):
             V.append(("C13", "use-after-unmount", f"access after the backing memory was released: {norm(l)}"))
         if kind == "ev":
             tid = int(o["t"]); ev_seen += 1
+            if o.get("k") == "ld" and o.get("loc") == "alloc":
+                last_cursor[tid] = int(o.get("old", "0"))
             if crash_pending is not None:
                 k_, r_ = crash_pending
                 sig = site_name(o.get("at"), S, F)
@@ -171,6 +174,18 @@ def monitor_sched(case_lines, out_lines, S, F):
             r = o.get("r", "")
             if r.startswith(("panic", "trap", "sig")) or r == "diverge":
                 V.append(("C02", "panic", f"t={tid} {' '.join(op)} -> {r}"))
+                if op[0] in ("rd", "rd_var"):
+                    V.append(("C15", "reader-panics", f"t={tid} {' '.join(op)} -> {r}"))
+            if op[0] in ("rd", "rd_var") and tid in last_cursor:
+                # judged against the cursor value this very call observed (its own load of `allocated`)
+                al_ = last_cursor[tid]; off_ = int(op[-1])
+                W_ = {"u8":1,"i8":1,"u16":2,"i16":2,"u32":4,"i32":4,"u64":8,"i64":8,"u128":16,"i128":16}.get(op[1], 1) if op[0] == "rd" else int(o.get("n", 1))
+                if r == "ok" and off_ + W_ > al_:
+                    V.append(("C15", "reads-beyond-allocated", f"t={tid} {' '.join(op)} succeeded although the cursor it read was {al_}"))
+                if r == "OutOfBounds" and ((op[0] == "rd" and off_ + W_ <= al_) or (op[0] == "rd_var" and off_ < al_)):
+                    V.append(("C15", "spurious-oob", f"t={tid} {' '.join(op)} refused although the cursor it read was {al_}"))
+                if r == "ok" and "ref" in o and o.get("val") != o.get("ref"):
+                    V.append(("C15", "wrong-value", f"t={tid} {' '.join(op)} returned {o.get('val')}, the bytes decode to {o.get('ref')}"))
             if op[0].startswith("alloc_") and r == "ok":
                 off, cap = int(o["off"]), int(o["cap"])
                 if cap > 0:
@@ -203,7 +218,7 @@ def monitor_sched(case_lines, out_lines, S, F):
             elif op[0] == "verify" and o.get("v") == "0":
                 V.append(("C02", "bytes-changed", f"t={tid} verify {op[1]}: the bytes of a live handle were modified by someone else"))
         elif kind == "died":
-            for p_ in ("C01", "C02", "C03", "C04", "C07", "C08"):
+            for p_ in ("C01", "C02", "C03", "C04", "C07", "C08", "C15"):
                 V.append((p_, "impl-crash", f"the implementation killed the process ({l.strip()}: SIGSEGV/abort inside the crate) while this schedule was running"))
         elif kind == "hang":
             sig = site_name(o.get("at"), S, F)
